@@ -51,16 +51,16 @@ Sem(d, B) ==
   IN
   CASE d.k = "Count" ->
          [Z EXCEPT !.e = IF d.tr = "sq" THEN SumBag(B, LAMBDA x, w : Mul(w, w), Q(0)) ELSE e]
-    [] d.k = "Sum" -> [Z EXCEPT !.e = e, !.s = SumBag(B, LAMBDA x, w : Mul(x[d.q], w), Q(0))]
+    [] d.k = "Sum" -> [Z EXCEPT !.e = e, !.s = SumBag(B, LAMBDA x, w : Mul(QV(d, x), w), Q(0))]
     [] d.k \in {"Average", "Deviate"} ->
-         LET swq == SumBag(B, LAMBDA x, w : Mul(x[d.q], w), Q(0))
+         LET swq == SumBag(B, LAMBDA x, w : Mul(QV(d, x), w), Q(0))
              mean == IF DOMAIN B = {} THEN NaN ELSE Div(swq, e)
          IN IF d.k = "Average" THEN [Z EXCEPT !.e = e, !.mean = mean]
             ELSE [Z EXCEPT !.e = e, !.mean = mean,
                            !.vte = IF ~IsFin(mean) THEN NaN
-                                   ELSE SumBag(B, LAMBDA x, w : Mul(w, Mul(Sub(x[d.q], mean), Sub(x[d.q], mean))), Q(0))]
-    [] d.k = "Minimize" -> [Z EXCEPT !.e = e, !.min = FoldBag(B, LAMBDA acc, x : MinPlus(acc, x[d.q]), NaN)]
-    [] d.k = "Maximize" -> [Z EXCEPT !.e = e, !.max = FoldBag(B, LAMBDA acc, x : MaxPlus(acc, x[d.q]), NaN)]
+                                   ELSE SumBag(B, LAMBDA x, w : Mul(w, Mul(Sub(QV(d, x), mean), Sub(QV(d, x), mean))), Q(0))]
+    [] d.k = "Minimize" -> [Z EXCEPT !.e = e, !.min = FoldBag(B, LAMBDA acc, x : MinPlus(acc, QV(d, x)), NaN)]
+    [] d.k = "Maximize" -> [Z EXCEPT !.e = e, !.max = FoldBag(B, LAMBDA acc, x : MaxPlus(acc, QV(d, x)), NaN)]
     [] d.k = "Bag" ->
          [Z EXCEPT !.e = e,
                    !.vals = [key \in KeysOf(B, LAMBDA x : BagKey(d, x)) |->
@@ -68,40 +68,40 @@ Sem(d, B) ==
     [] d.k = "Bin" ->
          [Z EXCEPT !.e = e,
             !.vals = [i \in 1..d.num |->
-                        Sem(d.value, Restrict(B, LAMBDA x : LET q == x[d.q] IN
+                        Sem(d.value, Restrict(B, LAMBDA x : LET q == QV(d, x) IN
                               ~IsNaN(q) /\ Ge(q, d.lo) /\ Lt(q, d.hi) /\ BinIndex(Z, q) = i - 1))],
-            !.under = Sem(d.under, Restrict(B, LAMBDA x : Lt(x[d.q], d.lo))),
-            !.over = Sem(d.over, Restrict(B, LAMBDA x : Ge(x[d.q], d.hi))),
-            !.nan = Sem(d.nan, Restrict(B, LAMBDA x : IsNaN(x[d.q])))]
+            !.under = Sem(d.under, Restrict(B, LAMBDA x : Lt(QV(d, x), d.lo))),
+            !.over = Sem(d.over, Restrict(B, LAMBDA x : Ge(QV(d, x), d.hi))),
+            !.nan = Sem(d.nan, Restrict(B, LAMBDA x : IsNaN(QV(d, x))))]
     [] d.k = "SparselyBin" ->
          [Z EXCEPT !.e = e,
-            !.bins = [key \in KeysOf(Restrict(B, LAMBDA x : ~IsNaN(x[d.q])), LAMBDA x : SparseKey(Z, x[d.q])) |->
-                        Sem(d.value, Restrict(B, LAMBDA x : ~IsNaN(x[d.q]) /\ SparseKey(Z, x[d.q]) = key))],
-            !.nan = Sem(d.nan, Restrict(B, LAMBDA x : IsNaN(x[d.q])))]
+            !.bins = [key \in KeysOf(Restrict(B, LAMBDA x : ~IsNaN(QV(d, x))), LAMBDA x : SparseKey(Z, QV(d, x))) |->
+                        Sem(d.value, Restrict(B, LAMBDA x : ~IsNaN(QV(d, x)) /\ SparseKey(Z, QV(d, x)) = key))],
+            !.nan = Sem(d.nan, Restrict(B, LAMBDA x : IsNaN(QV(d, x))))]
     [] d.k = "CentrallyBin" ->
          [Z EXCEPT !.e = e,
             !.bins = [i \in Idx(d.centers) |->
-                        Sem(d.value, Restrict(B, LAMBDA x : ~IsNaN(x[d.q]) /\ CentralIndex(d.centers, x[d.q]) = i))],
-            !.nan = Sem(d.nan, Restrict(B, LAMBDA x : IsNaN(x[d.q])))]
+                        Sem(d.value, Restrict(B, LAMBDA x : ~IsNaN(QV(d, x)) /\ CentralIndex(d.centers, QV(d, x)) = i))],
+            !.nan = Sem(d.nan, Restrict(B, LAMBDA x : IsNaN(QV(d, x))))]
     [] d.k = "IrregularlyBin" ->
          [Z EXCEPT !.e = e,
             !.bins = [i \in 1..(Len(d.edges) + 1) |->
-                        Sem(d.value, Restrict(B, LAMBDA x : ~IsNaN(x[d.q]) /\ IrrIndex(Z.ths, x[d.q]) = i))],
-            !.nan = Sem(d.nan, Restrict(B, LAMBDA x : IsNaN(x[d.q])))]
+                        Sem(d.value, Restrict(B, LAMBDA x : ~IsNaN(QV(d, x)) /\ IrrIndex(Z.ths, QV(d, x)) = i))],
+            !.nan = Sem(d.nan, Restrict(B, LAMBDA x : IsNaN(QV(d, x))))]
     [] d.k = "Stack" ->
          [Z EXCEPT !.e = e,
             !.bins = [i \in 1..(Len(d.thresholds) + 1) |->
-                        Sem(d.value, Restrict(B, LAMBDA x : Ge(x[d.q], Z.ths[i])))],
-            !.nan = Sem(d.nan, Restrict(B, LAMBDA x : IsNaN(x[d.q])))]
+                        Sem(d.value, Restrict(B, LAMBDA x : Ge(QV(d, x), Z.ths[i])))],
+            !.nan = Sem(d.nan, Restrict(B, LAMBDA x : IsNaN(QV(d, x))))]
     [] d.k = "Categorize" ->
          [Z EXCEPT !.e = e,
-            !.bins = [key \in KeysOf(B, LAMBDA x : CatOf(x[d.q])) |->
-                        Sem(d.value, Restrict(B, LAMBDA x : CatOf(x[d.q]) = key))]]
+            !.bins = [key \in KeysOf(B, LAMBDA x : CatOf(QV(d, x))) |->
+                        Sem(d.value, Restrict(B, LAMBDA x : CatOf(QV(d, x)) = key))]]
     [] d.k = "Fraction" ->
          [Z EXCEPT !.e = e, !.den = Sem(d.value, B),
-                   !.num = Sem(d.value, SubW(B, LAMBDA x, w : Mul(x[d.q], w)))]
+                   !.num = Sem(d.value, SubW(B, LAMBDA x, w : Mul(QV(d, x), w)))]
     [] d.k = "Select" ->
-         [Z EXCEPT !.e = e, !.cut = Sem(d.cut, SubW(B, LAMBDA x, w : Mul(x[d.q], w)))]
+         [Z EXCEPT !.e = e, !.cut = Sem(d.cut, SubW(B, LAMBDA x, w : Mul(QV(d, x), w)))]
     [] d.k \in {"Label", "UntypedLabel"} ->
          [Z EXCEPT !.e = e, !.pairs = [key \in DOMAIN d.pairs |-> Sem(d.pairs[key], B)]]
     [] d.k \in {"Index", "Branch"} ->
